@@ -314,6 +314,20 @@ Proof. reflexivity. Qed.
 Lemma find_In {X} (p : X -> bool) l x : find p l = Some x -> In x l /\ p x = true.
 Proof. apply find_some. Qed.
 
+Lemma SwOK_mark_auto n U r u : SwOK n U r -> SwOK n U (sw_mark_auto r u).
+Proof. intros [H1 H2 H3]. constructor; assumption. Qed.
+
+Lemma SwOK_mark n U (g : bool) r u : SwOK n U r -> SwOK n U (if g then sw_mark_auto r u else r).
+Proof. destruct g; [apply SwOK_mark_auto|auto]. Qed.
+
+Lemma sw_claim_ok n U r nm r' : SwOK n U r -> sw_claim r nm = Ok r' -> SwOK n U r'.
+Proof.
+  intros Hok. unfold sw_claim. destruct (find (name_is nm) (sw_all_cats r)) as [c|]; [|intros H; injection H as <-; exact Hok].
+  destruct (_ || _); [discriminate|]. destruct (memb (cc_uuid c) (sw_auto r)); [|intros H; injection H as <-; exact Hok].
+  destruct (alt_loop _ _ _) as [nm'|e]; [|discriminate]. intros H. injection H as <-.
+  apply SwOK_upd_cat; [reflexivity|intros c0 H0; exact H0|exact Hok].
+Qed.
+
 Lemma sw_add_choice_ok n U r v ty args name d b r' n' :
   SwOK n U r -> dest_ok U d -> sw_add_choice fresh n r v ty args name d b = Ok (r', n') ->
   n <= n' /\ SwOK n' U r'.
@@ -329,15 +343,18 @@ Proof.
       apply new_case_spec in Ek as (Hu & Hc & ->). split; [lia|].
       apply SwOK_add_case; [exact Hu| |apply SwOK_update_default; assumption].
       rewrite Hc. unfold sw_all_cats. rewrite map_app. apply in_or_app. right. left. reflexivity.
-    + destruct (find (name_is nm) (sw_all_cats r0)) as [c|] eqn:Ec.
+    + destruct (if explicit_names_claimed && _ then sw_claim r0 nm else Ok r0) as [r1|e] eqn:Ecl; [|discriminate].
+      assert (Hok1 : SwOK n U r1).
+      { destruct (explicit_names_claimed && _); [eapply sw_claim_ok; eauto|injection Ecl as <-; exact Hok0]. }
+      clear Ecl. destruct (find (name_is nm) (sw_all_cats r1)) as [c|] eqn:Ec.
       * destruct (new_case _ _ _ _ _) as [[k n1]|e] eqn:Ek; [|discriminate]. intros H. injection H as <- <-.
-        apply new_case_spec in Ek as (Hu & Hc & ->). split; [lia|].
+        apply new_case_spec in Ek as (Hu & Hc & ->). split; [lia|]. apply SwOK_mark.
         apply SwOK_add_case; [exact Hu| |apply SwOK_set_dest; assumption].
         rewrite Hc, sw_all_cats_upd_cat, upd_first_map by reflexivity.
         apply find_In in Ec as [Hin _]. apply in_map. exact Hin.
       * destruct (new_cat _ _ _ _) as [[c n1]|e] eqn:Ecat; [|discriminate].
         destruct (new_case _ _ _ _ _) as [[k n2]|e] eqn:Ek; [|discriminate]. intros H. injection H as <- <-.
-        apply new_cat_spec in Ecat as (-> & ->). apply new_case_spec in Ek as (Hu & Hc & ->). split; [lia|].
+        apply new_cat_spec in Ecat as (-> & ->). apply new_case_spec in Ek as (Hu & Hc & ->). split; [lia|]. apply SwOK_mark.
         apply SwOK_add_case; [exact Hu| |apply SwOK_add_cat; assumption].
         rewrite Hc. unfold sw_add_cat, sw_all_cats. cbn. rewrite !map_app. cbn.
         apply in_or_app. left. apply in_or_app. right. left. reflexivity.
@@ -348,7 +365,7 @@ Lemma new_switch_ok n U operand result timeout r n' :
 Proof.
   unfold new_switch. destruct (new_cat fresh n s_Other None) as [[other n1]|e] eqn:E1; [|discriminate].
   apply new_cat_spec in E1 as (-> & ->).
-  assert (Hbase : forall w, wait_cats w = [] -> SwOK (S (S n)) U (mkSwitch operand result w [] [] (mkCCat (fresh n) s_Other (mkCExit (fresh (S n)) None)))).
+  assert (Hbase : forall w, wait_cats w = [] -> SwOK (S (S n)) U (mkSwitch operand result w [] [] (mkCCat (fresh n) s_Other (mkCExit (fresh (S n)) None)) [])).
   { intros w Hw. constructor.
     - unfold sw_all_cats. cbn. rewrite Hw.
       apply (CatsOK_insert n U [] [] s_Other None); [apply CatsOK_nil|exact I].
